@@ -32,7 +32,8 @@ NoneA == [k |-> "none"]
 Mi(lo, ex) == [k |-> "m", fin |-> TRUE, lo |-> lo, ex |-> ex, tr |-> IF lo >= 0 \/ ex THEN lo ELSE lo + 1]
 MiR(lo, tr) == [k |-> "m", fin |-> TRUE, lo |-> lo, ex |-> FALSE, tr |-> tr]   \* product rounded across an integer
 MNan == [k |-> "m", fin |-> FALSE, lo |-> 0, ex |-> FALSE, tr |-> 0]
-Qn(n) == [k |-> "q", n |-> n]
+\* quaternion component: numerator n (common scale), u = floor(4096 * length of the whole argument)
+Qu(n, u) == [k |-> "q", n |-> n, u |-> u]
 Li(s) == [k |-> "l", v |-> s]
 
 SeqToSet(s) == {s[i] : i \in DOMAIN s}
@@ -51,15 +52,22 @@ MillisQ == <<Mi(0, TRUE), Mi(1500, TRUE), Mi(-250, TRUE), Mi(1234, FALSE), Mi(-1
 MillisT == MillisQ \o <<Mi(32750, TRUE), Mi(32875, TRUE), Mi(-32769, FALSE), Mi(-32875, TRUE), Mi(32768, FALSE),
                         MNan, [Mi(1073741824, FALSE) EXCEPT !.tr = 1073741824], Mi(-1, FALSE),
                         MiR(4349, 4350), MiR(-700, -700)>>
-QuatsQ == {<<0, 0, 0, 16>>, <<1, 2, 3, 4>>, <<-3, 3, -3, 3>>, <<0, 0, 0, 0>>}
-QuatsT == QuatsQ \cup {<<-16, 5, 0, -7>>, <<1, 1, 0, 0>>, <<0, -1, 0, 0>>, <<16, 16, 16, -16>>, <<2, -9, 9, 1>>,
-                       <<7, 0, -7, 0>>, <<1, 0, 0, 16>>, <<-5, -6, -7, -8>>}
+\* <<x, y, z, w, u>>: the first eight (and the thorough extras) at scale 1; QuatsNear: nearly unit length
+\* (0.1 % .. 1 % too long or too short, primitive directions, two of them with two components at 1/sqrt 2)
+QuatsNear == {<<0, 0, 1, 1, 4116>>, <<1, -1, 0, 0, 4108>>, <<1, 2, 3, 4, 4059>>, <<-1, 1, -1, 1, 4126>>,
+              <<0, 0, 0, 1, 4100>>}
+QuatsQ == {<<0, 0, 0, 16, 65536>>, <<1, 2, 3, 4, 22434>>, <<-3, 3, -3, 3, 24576>>, <<0, 0, 0, 0, 0>>} \cup QuatsNear
+QuatsT == QuatsQ \cup {<<-16, 5, 0, -7, 74407>>, <<1, 1, 0, 0, 5792>>, <<0, -1, 0, 0, 4096>>,
+                       <<16, 16, 16, -16, 131072>>, <<2, -9, 9, 1, 52931>>, <<7, 0, -7, 0, 40548>>,
+                       <<1, 0, 0, 16, 65663>>, <<-5, -6, -7, -8, 54029>>,
+                       <<1, 2, 3, 4, 4133>>, <<1, 1, 0, 0, 4055>>, <<1, 1, 0, 0, 4137>>, <<2, -9, 9, 1, 4120>>,
+                       <<0, 1, 0, -1, 4097>>, <<1, 1, 1, -1, 4080>>}
 ListsQ == {<<>>, <<0>>, <<15, 1>>, <<16>>, <<0, 1, 2, 3, 4, 5, 6, 7, 8, 9, 10, 11, 12, 13, 14, 15>>}
 ListsT == ListsQ \cup {<<-1>>, <<3, 7, 11>>, <<15>>, <<2, 16, 1>>}
 ListsDup == {<<1, 1>>, <<15, 15>>, <<0, 3, 3>>}
 
 FullState(ms, qs) ==
-    {[i \in 1..16 |-> IF i <= 9 THEN m[i] ELSE IF i <= 13 THEN Qn(q[i - 9]) ELSE m[i - 4]] :
+    {[i \in 1..16 |-> IF i <= 9 THEN m[i] ELSE IF i <= 13 THEN Qu(q[i - 9], q[5]) ELSE m[i - 4]] :
         m \in Diag(12, ms), q \in qs}
 
 \* fd: sequence of floats used rotated; fp: set used in full products; gr: grid floats for x-mode
@@ -106,6 +114,42 @@ ArgSetsDup == [c \in Cmds |-> IF c = "lh_persist" THEN {<<Li(g), Li(<<2>>)>> : g
 \* simulation: thorough sets (successors are enumerated at every step, keep it moderate)
 ArgSetsSim == ArgsFor(FdT, {Zero, M2h, Tenth}, {Zero, One, M2h, C100h, Eighth, M128}, ThrustsT, U8sQ, U32sQ,
                       MillisT, QuatsT, ListsT \cup ListsDup)
+\* nearly-unit quaternions only: the space in which "quat_unit_shortcut" differs
+ArgSetsQuatNear == [c \in Cmds |-> IF c = "full_state" THEN FullState(<<Mi(0, TRUE), Mi(1500, TRUE)>>, QuatsNear) ELSE {}]
+\* a link that keeps the packet object: few arguments, every sender class (Commander, HighLevelCommander,
+\* Localization, Extpos, PlatformService, LoPoAnchor), two calls in flight
+DeferCmds == {"position", "stop_setpoint", "hl_takeoff", "hl_stop", "hl_goto", "hl_define_traj", "hl_spiral",
+              "extpos", "arm", "lpp_mode", "notify_stop"}
+ArgSetsDefer ==
+  [c \in Cmds |->
+    CASE c = "position" -> {<<One, M2h, Tenth, Zero>>}
+      [] c = "stop_setpoint" -> {<<>>}
+      [] c = "hl_takeoff" -> {<<One, M2h, In(0), NoneA>>, <<Tenth, One, In(1), M2h>>}
+      [] c = "hl_stop" -> {<<In(255)>>}
+      [] c = "hl_goto" -> {<<One, M2h, Tenth, Zero, One, Bt, Bf, In(0)>>, <<M2h, Tenth, One, One, Tenth, Bf, Bt, In(1)>>}
+      [] c = "hl_spiral" -> {<<One, Tenth, One, M2h, One, Bt, Bf, In(0)>>, <<Ovf, Tenth, One, M2h, One, Bt, Bf, In(256)>>}
+      [] c = "hl_define_traj" -> {<<In(1), In(65536), In(3), In(0)>>}
+      [] c = "extpos" -> {<<One, M2h, Tenth>>}
+      [] c = "arm" -> {<<Bt>>, <<Bf>>}
+      [] c = "lpp_mode" -> {<<In(3), In(1)>>}
+      [] c = "notify_stop" -> {<<In(0)>>, <<Over32>>}
+      [] OTHER -> {}]
+DeferVersions == {9}
+\* thorough: more senders and arguments, both sides of the go_to switch
+DeferCmdsT == DeferCmds \cup {"hl_land", "hl_start_traj", "emergency_stop", "setpoint", "full_state", "lh_persist"}
+ArgSetsDeferT ==
+  [c \in Cmds |->
+    CASE c = "hl_land" -> {<<Tenth, One, In(1), M2h>>}
+      [] c = "hl_start_traj" -> {<<In(1), One, Bf, Bt, In(0)>>, <<In(256), One, Bf, Bt, In(0)>>}
+      [] c = "emergency_stop" -> {<<>>}
+      [] c = "setpoint" -> {<<One, M2h, Zero, In(30000)>>, <<One, M2h, Zero, In(65536)>>}
+      [] c = "full_state" -> FullState(<<Mi(0, TRUE), Mi(1500, TRUE)>>, {<<1, 2, 3, 4, 22434>>})
+      [] c = "lh_persist" -> {<<Li(<<1>>), Li(<<15, 0>>)>>}
+      [] c = "position" -> {<<One, M2h, Tenth, Zero>>, <<M2h, One, Zero, Tenth>>}
+      [] OTHER -> ArgSetsDefer[c]]
+DeferVersionsT == {7, 9}
+LinksNow == {"now"}
+LinksBoth == {"now", "later"}
 Ports16 == 0..15
 Chans4 == 0..3
 ====
